@@ -560,3 +560,68 @@ twin('C01', 'c01-twin-flipped-truth', TIMING,
      "        return __USIM_STATE__.loop.time >= self.date",
      "        return self.date <= __USIM_STATE__.loop.time",
      'a >= b <-> b <= a')
+
+# ------------------------------------------------------------------------- C08
+mutant('C08', 'c08-condition-if-instead-of-while', COND,
+       "        while not self:\n            yield from super().__await__()\n        return True",
+       "        if not self:\n            yield from super().__await__()\n        return True",
+       'E Condition.__await__', 'returns after one wake-up although the condition reverted')
+mutant('C08', 'c08-connective-single-round', COND,
+       "        while not self:\n            with ExitStack() as stack:",
+       "        if not self:\n            with ExitStack() as stack:",
+       'E Connective', 'a & b returns when only a changed')
+mutant('C08', 'c08-flag-set-no-trigger', FLAG,
+       "        if to and not self:\n            self._value = to\n            self.__trigger__()",
+       "        if to and not self:\n            self._value = to",
+       'W', 'waiters of a flag are never woken')
+mutant('C08', 'c08-flag-lower-triggers-self', FLAG,
+       "            self._value = to\n            self._inverse.__trigger__()",
+       "            self._value = to\n            self.__trigger__()",
+       'W', 'waiters of ~flag are never woken')
+mutant('C08', 'c08-flag-trigger-after-postpone', FLAG,
+       "            self._value = to\n            self.__trigger__()\n        elif",
+       "            self._value = to\n            await postpone()\n            self.__trigger__()\n        elif",
+       'W', 'a waiter is still parked at the end of the step in which the flag was set')
+mutant('C08', 'c08-tracked-first-listener', TRACKED,
+       "        for listener in list(self._listeners):\n            listener.__on_changed__()",
+       "        for listener in list(self._listeners):\n            listener.__on_changed__()\n            break",
+       'W', 'only one comparison is re-evaluated')
+mutant('C08', 'c08-on-changed-always', TRACKED,
+       "        if self._test():\n            self.__trigger__()",
+       "        if not self._test():\n            self.__trigger__()",
+       'W AsyncComparison', 'wakes waiters when the comparison does not hold')
+mutant('C08', 'c08-connective-break', COND,
+       "                    if child:\n                        continue\n                    stack.enter_context(child.__subscription__())",
+       "                    if child:\n                        continue\n                    stack.enter_context(child.__subscription__())\n                    break",
+       'S', 'only the first false operand is watched')
+mutant('C08', 'c08-all-is-any', COND,
+       "    def __bool__(self):\n        return all(self._children)",
+       "    def __bool__(self):\n        return any(self._children)",
+       'B All.__bool__', 'a & b true when one holds')
+mutant('C08', 'c08-and-drops-operand', COND,
+       "        if isinstance(other, All):\n            return All(self, *other._children)\n        return All(self, other)",
+       "        if isinstance(other, All):\n            return All(self, *other._children)\n        return All(self)",
+       'B Condition.__and__', 'a & b is just a')
+mutant('C08', 'c08-invert-any-keeps-kind', COND,
+       "        return All(*(~child for child in self._children))",
+       "        return Any(*(~child for child in self._children))",
+       'B ~Any', 'De Morgan broken')
+mutant('C08', 'c08-comparison-inverse', TRACKED,
+       "        operator.lt: operator.ge,\n", "        operator.lt: operator.gt,\n",
+       'B AsyncComparison._operator_inverse', '~(a < b) is a > b')
+mutant('C08', 'c08-after-invert-date', TIMING,
+       "    def __invert__(self):\n        return Before(self.date)",
+       "    def __invert__(self):\n        return Before(self.date + 1)",
+       'B ~After', 'complement on another date')
+mutant('C08', 'c08-bool-with-effect', FLAG,
+       "    def __bool__(self) -> bool:\n        return self._value\n\n    def __invert__(self) -> 'InverseFlag':",
+       "    def __bool__(self) -> bool:\n        self._inverse._waiting.clear()\n        return self._value\n\n    def __invert__(self) -> 'InverseFlag':",
+       'B Flag.__bool__:pure', 'testing a flag drops waiters')
+mutant('C08', 'c08-done-no-trigger', TASK,
+       "        self._value = True\n        self.__trigger__()",
+       "        self._value = True",
+       'W', 'awaiters of task.done never wake')
+twin('C08', 'c08-twin-while-true', COND,
+     "        while not self:\n            with ExitStack() as stack:\n                for child in self._children:\n                    # we only need to wait for children which\n                    # are not True yet\n                    if child:\n                        continue\n                    stack.enter_context(child.__subscription__())\n                await Hibernate()  # hibernate until a child condition triggers\n        return True",
+     "        while True:\n            if self:\n                return True\n            with ExitStack() as stack:\n                for child in self._children:\n                    # we only need to wait for children which\n                    # are not True yet\n                    if child:\n                        continue\n                    stack.enter_context(child.__subscription__())\n                await Hibernate()  # hibernate until a child condition triggers",
+     'loop rewritten')
